@@ -299,4 +299,51 @@ example :
     (m.apply .v02 (.updateRoleThreshold .root 3)).err = some .cannotMeetThreshold ∧
     (m.apply .v02 (.deleteRolePrincipal .root "k")).err = some .cannotMeetThreshold := by decide
 
+/-! ## refused root edits can be deleted from any history of edits -/
+/-- the accepted sub-sequence of a run of root edits -/
+def RootMeta.accepted (v : Ver) : RootMeta → List ROp → List ROp
+  | _, [] => []
+  | m, o :: os =>
+    if (m.apply v o).err.isNone then o :: RootMeta.accepted v (m.apply v o).st os
+    else RootMeta.accepted v (m.apply v o).st os
+
+/-- every edit of the sequence is accepted when applied in turn -/
+def RootMeta.allAccepted (v : Ver) : RootMeta → List ROp → Bool
+  | _, [] => true
+  | m, o :: os => (m.apply v o).err.isNone && RootMeta.allAccepted v (m.apply v o).st os
+
+/-- Root metadata, any finite sequence of edits with arbitrary arguments: the object reached is
+EXACTLY the one reached by the accepted edits alone (which are all accepted again when replayed
+without the refused ones).  A refused root edit therefore leaves no trace at all, not even one a
+later edit could observe. -/
+theorem C13_root_run_eq_accepted (v : Ver) (ops : List ROp) : ∀ m : RootMeta,
+    m.run v ops = m.run v (RootMeta.accepted v m ops) ∧
+      RootMeta.allAccepted v m (RootMeta.accepted v m ops) = true := by
+  induction ops with
+  | nil => intro m; exact ⟨rfl, rfl⟩
+  | cons o os ih =>
+    intro m
+    unfold RootMeta.accepted
+    split
+    · rename_i h
+      refine ⟨?_, ?_⟩
+      · simp only [RootMeta.run, List.foldl_cons]; exact (ih _).1
+      · simp only [RootMeta.allAccepted, h, Bool.true_and]; exact (ih _).2
+    · rename_i h
+      cases he : (m.apply v o).err with
+      | none => simp [he] at h
+      | some e =>
+        have := C13_root_refused_unchanged v m o e he
+        simp only [RootMeta.run, List.foldl_cons]
+        rw [this]; exact ih m
+
+/-- non-vacuity: a sequence whose third and fifth edits are refused; the accepted sub-sequence has the other three -/
+example :
+    let k : Principal := { id := "k", kind := .key, keys := [] }
+    let p : Principal := { id := "p", kind := .person, keys := ["k"] }
+    let ops : List ROp := [.addRolePrincipal .root (some k), .addRolePrincipal .root (some p),
+      .updateRoleThreshold .root 3, .updateRoleThreshold .root 2, .deleteRolePrincipal .root "k"]
+    RootMeta.accepted .v02 RootMeta.new ops =
+      [.addRolePrincipal .root (some k), .addRolePrincipal .root (some p), .updateRoleThreshold .root 2] := by decide
+
 end Gittuf
